@@ -18,6 +18,7 @@ import sys
 
 from mon import refbufr as R
 from mon import digest as DG
+from mon import handover
 from mon.gen import cases, streams
 from mon.gen.templates import scoped
 
@@ -445,9 +446,17 @@ def run_history(ctx, pool, gold, limit, hno, alts):
                 hist.append('%s:%s' % (op, name))
                 ctx.count('kept_object_rechecks')
                 m = kept[i]
+                if rng.random() < 0.12 and len(b) < 20000:
+                    # "earlier queries and renderings of the same message object": one object of this message taken through a
+                    # sequence of successful operations of different kinds (both wiring entry points, renderings, queries,
+                    # subset, encoding of the objects it hands out), each result compared with a brand-new object's
+                    handover.on_message(ctx, b, dict(history=hist[-6:], step=step, message=name), site='history', p=1.0,
+                                        quota=4 if ctx.quick else 40)
                 try:
                     if rng.random() < 0.5:
                         m.wire()
+                    if rng.random() < 0.3:
+                        m.template_data.value.wire()      # the other public entry point: wiring is done once whoever asks
                     NestedJsonRenderer().render(m)
                     got = DG.message_digest(m)
                 except Exception as e:
